@@ -179,6 +179,27 @@ def generate(rng, tier):
                            tag="%s:rootrow:%s:%s:%s" % (arch, c[0] + str(c[1])[:2], f[0], "first" if first else "caller"))
                 s.meta[ln] = {"role": "full", "marker": "return address undefined (CFA %s, fp rule %s)" % (c, f), "arch": arch,
                               "rootrow": [list(c[:1]) + ([c[1], c[2]] if c[0] == "r" else []), f[0], first]}
+        if arch == "a64":
+            # the contrast: lr declared SAME VALUE is not a root marker. A caller frame described that way cannot be
+            # unwound (its return address would be the one just used), but the stack does not end there: Err, not Ok(None)
+            s.add("newcache C")
+            nfd = len(roots)
+            for j, (c, f) in enumerate([(cc, ff) for cc in cfas[:1] + cfas[3:4] for ff in (("s",), ("u",), ("o", -16))]):
+                pass
+            s2 = Script(arch, s.lines[0].split("policy=")[1].split()[0])
+            same = [(cc, ff) for cc in (("r", R["sp"], 2 * gran), ("r", R["sp"], 0), ("r", R["sp"], 4 * gran)) for ff in (("s",), ("u",))]
+            fd2 = [dict(start=0x1000, len=0x100, rows=[(0, suites.std_row(arch, "frameless", 2))])]
+            for i, (c, f) in enumerate(same):
+                fd2.append(dict(start=0x2000 + 0x10 * i, len=0x10, rows=[(0, dict(cfa=c, fp=f, ra=("s",)))]))
+            s2.module_dwarf("M", 0x10000, 0x20000, 0x10000, 0, ["hdr", "eh", "debug"][w % 3], fd2, rng, shuffle=True)
+            s2.add("new U"); s2.add("add U M")
+            for i, (c, f) in enumerate(same):
+                ra = 0x12000 + 0x10 * i + 5
+                s2.mem("S%d" % i, [(base + 8 * j, ra if j == 3 else 0x11800 + j) for j in range(64)])
+                s2.add("newcache C")
+                ln = s2.add("trace U C 0x11050 %s S%d 6" % (s2.regs_a64(M64, 0x11060, base, base + 128), i), tag="a64:samevalue:%d:%s" % (c[2], f[0]))
+                s2.meta[ln] = {"role": "notroot", "arch": arch}
+            out.append(("samevalue-%s-%d" % (arch, w), s2))
         out.append(("rootrows-%s-%d" % (arch, w), s))
     return out
 
@@ -195,6 +216,10 @@ def judge(script, impl):
         for it in its:
             if it.startswith("ok ra 0x0 "):
                 bad.append((ln, "null address reported as a frame: " + line[:200]))
+        if m["role"] == "notroot":
+            if its[-1] == "ok none":
+                bad.append((ln, "a caller frame whose row keeps lr (same value) was taken for the end of the stack: " + line[:300]))
+            continue
         if m["role"] == "full":
             if its[-1] != "ok none":
                 # scenarios are complete chains: they must end at the root marker
